@@ -4,7 +4,7 @@
    "every iteration order / registration order" is "every permutation of the method list". *)
 From Coq Require Import ZArith List Bool Arith Permutation.
 Import ListNotations.
-From OvldV Require Import Model.Order Model.Ty Model.Codec Model.Resolve Spec.Dispatch Proofs.ResolveStatic Gen.Leaf Proofs.LeafAgree.
+From OvldV Require Import Model.Order Model.Ty Model.Codec Model.Resolve Spec.Dispatch Proofs.ResolveStatic Proofs.ResolveChain Gen.Leaf Proofs.LeafAgree.
 
 Definition Refl (sub : nat -> nat -> bool) := forall c, sub c c = true.
 Definition Antisym (sub : nat -> nat -> bool) := forall c d, sub c d = true -> sub d c = true -> c = d.
@@ -43,6 +43,27 @@ Theorem C06_irrelevant_when_decided : forall sub hasm chk fresh, Refl sub -> Ant
   spec_outcome sub ms k = VRun i -> lookup sub hasm chk fresh (ms ++ extra) k = ORun i.
 Proof. exact decided_irrelevant. Qed.
 Print Assumptions C06_irrelevant_when_decided.
+
+(* ... and for EVERY call -- decided or ambiguous -- whose classes fall under pairwise comparable registered types at each
+   position (chain_applicable; every call under single inheritance): the verdict (which method / NoMethod / Ambiguous)
+   is the same for every permutation of the method list, and unchanged by methods not applicable to the call.
+   (verdict_of forgets only the order in which an Ambiguous error lists its candidates.) *)
+Definition Trans (sub : nat -> nat -> bool) := forall a b c, sub a b = true -> sub b c = true -> sub a c = true.
+
+Theorem C06_order_free_on_chains : forall sub hasm chk fresh, Refl sub -> Antisym sub -> Trans sub -> forall ms ms' k,
+  NoDup (map m_id ms) -> static_ms ms = true -> static_key k = true ->
+  chain_applicable sub ms k = true -> ties_wf ms = true -> Permutation ms ms' ->
+  verdict_of (lookup sub hasm chk fresh ms' k) = verdict_of (lookup sub hasm chk fresh ms k).
+Proof. exact chain_order_free. Qed.
+Print Assumptions C06_order_free_on_chains.
+
+Theorem C06_irrelevant_on_chains : forall sub hasm chk fresh, Refl sub -> Antisym sub -> Trans sub -> forall ms extra k,
+  NoDup (map m_id (ms ++ extra)) -> static_ms (ms ++ extra) = true -> static_key k = true ->
+  chain_applicable sub (ms ++ extra) k = true -> ties_wf ms = true -> ties_wf (ms ++ extra) = true ->
+  (forall m, In m extra -> applicable sub m k = false) ->
+  verdict_of (lookup sub hasm chk fresh (ms ++ extra) k) = verdict_of (lookup sub hasm chk fresh ms k).
+Proof. exact chain_irrelevant. Qed.
+Print Assumptions C06_irrelevant_on_chains.
 
 (* ---- refutations of the full statement ---- *)
 Definition wh : hier :=   (* 0 object, 1 A, 2 B, 3 C(A,B), 4 D *)
